@@ -8,6 +8,12 @@ Unannotated stretch at 8000 (both chromosomes).  Structures (each with a coverag
  X1 K1 with one junction displaced by 3 bp (bulge)      X2 K1 with a short spurious terminal exon (tip)
  M1 mono-exonic polyA reads in the unannotated stretch  A1 antisense copy of N2 (reads flagged reverse, polyT head)
  G1 spliced reads of an unannotated gene at 8000        S1 two alternative polyA sites of N1 (same chain, ends 300 bp apart)
+ I1 alternative TSS: reads whose first exon is slot 1 extended 200 bp upstream into the preceding intron, then slots 2,3,4
+ I2 alternative end: reads over slots 0,1,2 and slot 3 extended 200 bp downstream into the following intron (mirror image of I1)
+ F1 / F2 reads of the annotated isoform T8 (gene G6) covering its exons 1-4 / 5-8 only: two disjoint read clusters, processed as two
+    regions, each supporting the SAME reference isoform
+ Z1 unannotated locus at 13100 on chr1: reads with intron Y = 13251-13400 and a few with X = 13255-13400 (folded into Y by the graph)
+ Z2 the SAME coordinates on chr2 (processed after chr1): all reads have intron X - the model must keep X
  Y0 full-length reads of TA (gene G11: TA = exons 1-5, TB = exons 1,3,5)
  Y1 reads over G11 exons 1,2',3,5 where 2' starts 12 bp upstream of the annotated acceptor (more than delta, less than the
     intron-graph clustering distance: next to a few Y0 reads the annotated intron is collapsed into the novel one; all other
@@ -19,13 +25,28 @@ import shutil
 
 from vlib import worlds as W
 
-STRUCTS = ["K1", "K2", "K4", "P1", "Q1", "N1", "N2", "N3", "X1", "X2", "M1", "A1", "G1", "S1", "V1", "W1", "V2", "H1", "H2", "Y0", "Y1"]
+STRUCTS = ["K1", "K2", "K4", "P1", "Q1", "N1", "N2", "N3", "X1", "X2", "M1", "A1", "G1", "S1", "V1", "W1", "V2", "H1", "H2", "Y0", "Y1", "I1", "I2", "F1", "F2", "Z1", "Z2"]
+Z_EXONS = [[13101, 13250], [13401, 13550], [13651, 13780]]
 # gene G11 (chr2, +): TA = 5 exons, TB = exons 1,3,5
 G11_EXONS = [[3201, 3350], [3501, 3650], [3801, 3950], [4101, 4250], [4401, 4550]]
 # gene G6: 8 exons of 150 bp, a 1-kb middle intron; its 5' half and 3' half can be covered by disjoint read clusters
 G6_EXONS = [[4601, 4750], [4901, 5050], [5201, 5350], [5501, 5650], [6701, 6850], [7001, 7150], [7301, 7450], [7601, 7750]]
 G5_EXONS = [[9001, 9300], [9801, 10000], [10601, 10800], [11401, 11700], [12501, 13000]]     # long last exon (500 bp)
 LEVELS = (1, 3, 12)
+# structures by the locus they live in (structures of different loci do not interact except through id numbering)
+LOCUS = {"G1": ["K1", "K2", "P1", "Q1", "N1", "N2", "N3", "X1", "X2", "A1", "S1", "V1", "I1", "I2"], "G2": ["K4"], "U1": ["M1"], "U2": ["G1"],
+         "G5": ["W1", "V2"], "G6": ["H1", "H2", "F1", "F2"], "G11": ["Y0", "Y1"], "ZA": ["Z1"], "ZB": ["Z2"]}
+LOCUS_OF = {st: loc for loc, sts in LOCUS.items() for st in sts}
+
+
+def interacting(sc):
+    """quick-tier selection of structure pairs: both in one locus, or the first structures of two loci (one representative per locus pair)"""
+    if len(sc) != 2:
+        return True
+    a, b = sc[0][0], sc[1][0]
+    if LOCUS_OF[a] == LOCUS_OF[b]:
+        return True
+    return LOCUS[LOCUS_OF[a]][0] == a and LOCUS[LOCUS_OF[b]][0] == b
 
 
 def slot(i, ds=0, de=0):
@@ -79,6 +100,23 @@ def structure_reads(struct, level, tag):
             reads.append(W.read_of(nm, "chr1", [G6_EXONS[i] for i in (0, 2, 3)]))
         elif struct == "H2":       # novel exon-skipping isoform in the 3' half of G6 (exons 5,7,8)
             reads.append(W.read_of(nm, "chr1", [G6_EXONS[i] for i in (4, 6, 7)]))
+        elif struct == "I1":
+            reads.append(W.read_of(nm, "chr1", [slot(1, ds=-200)] + E([2, 3, 4])))
+        elif struct == "I2":
+            reads.append(W.read_of(nm, "chr1", E([0, 1, 2]) + [slot(3, de=200)]))
+        elif struct == "F1":
+            reads.append(W.read_of(nm, "chr1", [G6_EXONS[i] for i in (0, 1, 2, 3)], polya=False))
+        elif struct == "F2":
+            reads.append(W.read_of(nm, "chr1", [G6_EXONS[i] for i in (4, 5, 6, 7)]))
+        elif struct == "Z1":
+            b = [list(e) for e in Z_EXONS]
+            if k % 6 == 5:
+                b[0][1] += 4
+            reads.append(W.read_of(nm, "chr1", b))
+        elif struct == "Z2":
+            b = [list(e) for e in Z_EXONS]
+            b[0][1] += 4
+            reads.append(W.read_of(nm, "chr2", b))
         elif struct == "Y0":
             reads.append(W.read_of(nm, "chr2", G11_EXONS))
         elif struct == "Y1":
@@ -94,7 +132,7 @@ def structure_reads(struct, level, tag):
 def make_world(scenario, annotated=True):
     """scenario: tuple of (struct, level)"""
     from vlib import syn
-    w = {"chroms": {"chr1": 14500, "chr2": 11000}, "genes": [], "reads": [], "sites": []}
+    w = {"chroms": {"chr1": 14500, "chr2": 14400}, "genes": [], "reads": [], "sites": []}
     g1 = W.locus_gene("G1", "chr1", "+", 1000, {"T1": [0, 1, 2, 3, 4], "T2": [0, 2, 3, 4]})
     g2 = W.locus_gene("G2", "chr2", "-", 1000, {"T4": [0, 1, 2, 3]})
     g5 = {"id": "G5", "chr": "chr1", "strand": "+", "transcripts": [{"id": "T7", "exons": [list(e) for e in G5_EXONS]}]}
@@ -105,7 +143,7 @@ def make_world(scenario, annotated=True):
         {"id": "T9", "exons": [[5001, 5200], [5401, 5401], [5601, 5800], [6001, 6001]]},
         {"id": "T10", "exons": [[5001, 5200], [5601, 5800], [6201, 6202]]}]}
     g9 = {"id": "G9", "chr": "chr2", "strand": "-", "transcripts": [{"id": "T11", "exons": [[1, 120], [301, 500]]}]}
-    g10 = {"id": "G10", "chr": "chr2", "strand": "+", "transcripts": [{"id": "T12", "exons": [[10401, 10600], [10801, 11000]]}]}
+    g10 = {"id": "G10", "chr": "chr2", "strand": "+", "transcripts": [{"id": "T12", "exons": [[13801, 14000], [14201, 14400]]}]}
     g11 = {"id": "G11", "chr": "chr2", "strand": "+", "transcripts": [{"id": "TA", "exons": [list(e) for e in G11_EXONS]},
                                                                        {"id": "TB", "exons": [list(G11_EXONS[i]) for i in (0, 2, 4)]}]}
     w["genes"] = [g1, g2, g5, g6, g8, g9, g10, g11]
@@ -128,6 +166,8 @@ def make_world(scenario, annotated=True):
     W.add_sites_for_blocks(w, "chr1", [G5_EXONS[i] for i in (0, 1, 3, 4)], "+")
     W.add_sites_for_blocks(w, "chr1", [G6_EXONS[i] for i in (0, 2, 3)], "+")
     W.add_sites_for_blocks(w, "chr1", [G6_EXONS[i] for i in (4, 6, 7)], "+")
+    W.add_sites_for_blocks(w, "chr1", Z_EXONS, "+")
+    W.add_sites_for_blocks(w, "chr2", [[Z_EXONS[0][0], Z_EXONS[0][1] + 4], Z_EXONS[1], Z_EXONS[2]], "+")
     W.dedup_sites(w)
     reads = []
     for i, (st, lv) in enumerate(scenario):
